@@ -182,7 +182,7 @@ Proof. unfold unroute. rewrite fold_left_app. reflexivity. Qed.
 
 Lemma inv1_step n s o s' : inv1 n s -> step n s o = Some s' -> inv1 n s'.
 Proof.
-  intros [W SW UR] H. destruct o as [nm | a b |]; cbn in H.
+  intros [W SW UR] H. destruct o as [nm | a b |]; cbn [step] in H.
   - (* exec *)
     destruct (extract _ (rem s)) as [[[pre it] post]|] eqn:E; [|discriminate].
     destruct (forallb _ (igates it) && forallb _ (iqs it)) eqn:C; [|discriminate].
@@ -190,7 +190,7 @@ Proof.
     constructor; cbn [rem l2p p2l out done update_maps].
     + exact W.
     + intros p q Hin. apply in_app_or in Hin. destruct Hin as [Hin|[Hin|[]]]; [auto|discriminate].
-    + rewrite unroute_snoc, UR. cbn. rewrite flat_map_app. cbn. rewrite app_nil_r.
+    + rewrite unroute_snoc, UR. cbn [unroute_step fst snd]. rewrite flat_map_app. cbn [flat_map]. rewrite app_nil_r.
       f_equal. f_equal. rewrite map_map. rewrite <- (map_id (igates it)) at 2.
       apply map_ext_in. intros g Hg. eapply relabel_inverse; [exact W|].
       intros q Hq. rewrite forallb_forall in C1, C2.
@@ -208,7 +208,7 @@ Proof.
     + intros p q Hin. apply in_app_or in Hin. destruct Hin as [Hin|[Hin|[]]]; [auto|].
       inversion Hin; subst. repeat split; auto.
       intro E. apply C3. rewrite <- EA, <- EB. rewrite E. reflexivity.
-    + rewrite unroute_snoc, UR. cbn. rewrite EA, EB. reflexivity.
+    + rewrite unroute_snoc, UR. cbn [unroute_step fst snd]. rewrite EA, EB. reflexivity.
   - (* undo *)
     destruct (rev (out s)) as [|[gs|p q] r] eqn:E; try discriminate.
     inversion H; subst; clear H.
@@ -224,12 +224,14 @@ Proof.
     constructor; cbn [rem l2p p2l out done update_maps].
     + exact W'.
     + intros p0 q0 Hin. apply SW. rewrite Eo. apply in_or_app. left. exact Hin.
-    + rewrite Eo, unroute_snoc in UR. destruct (unroute n (rev r)) as [G m] eqn:Eu. cbn in UR.
-      inversion UR; subst G. f_equal.
+    + rewrite Eo, unroute_snoc in UR. destruct (unroute n (rev r)) as [G m] eqn:Eu. cbn [unroute_step fst snd] in UR.
+      assert (HG : G = flat_map igates (done s)) by congruence.
+      assert (Hm : upd (upd m p (at_ m q)) q (at_ m p) = p2l s) by congruence.
+      subst G. f_equal.
       assert (Lm : length m = n).
-      { apply (f_equal (@length nat)) in H3. rewrite !upd_length in H3. congruence. }
-      rewrite <- (swap_entries_invol m p q) by (try lia; auto).
-      cbv zeta. rewrite H3. reflexivity.
+      { apply (f_equal (@length nat)) in Hm. rewrite !upd_length in Hm. congruence. }
+      pose proof (swap_entries_invol m p q) as I. cbv zeta in I. rewrite Hm in I.
+      symmetry. apply I; try lia; auto.
 Qed.
 
 Theorem inv1_run n chk items ops s :
@@ -251,7 +253,7 @@ Record inv2 (items : list item) (s : state) : Prop := {
 Lemma inv2_step n items s o s' :
   inv2 items s -> guard_front s o = true -> step n s o = Some s' -> inv2 items s'.
 Proof.
-  intros [L] G H. destruct o as [nm | a b |]; cbn in H, G.
+  intros [L] G H. destruct o as [nm | a b |]; cbn [step guard_front] in H, G.
   - unfold in_front in G.
     destruct (extract _ (rem s)) as [[[pre it] post]|] eqn:E; [|discriminate].
     destruct (forallb _ (igates it) && forallb _ (iqs it)); [|discriminate].
@@ -334,7 +336,7 @@ Lemma inv3_step n G items s o s' :
   wf_items n items ->
   inv3 n G items s -> guard_edge G s o = true -> step n s o = Some s' -> inv3 n G items s'.
 Proof.
-  intros WI [R ED] Gd H. destruct o as [nm | a b |]; cbn in H, Gd.
+  intros WI [R ED] Gd H. destruct o as [nm | a b |]; cbn [step guard_edge] in H, Gd.
   - unfold edge_ok in Gd.
     destruct (extract _ (rem s)) as [[[pre it] post]|] eqn:E; [|discriminate].
     destruct (forallb _ (igates it) && forallb _ (iqs it)); [|discriminate].
@@ -403,8 +405,11 @@ Theorem route_edges n G items ops s :
   run n (full_guard G) (init n items) ops = Some s ->
   forallb (gate_on_edge G) (eflat (out s)) = true.
 Proof.
-  intros W H. apply eflat_on_edges. eapply inv3_run; eauto.
-  intros s0 o C. unfold full_guard in C. apply andb_prop in C. tauto.
+  intros W H. apply eflat_on_edges.
+  assert (I : inv3 n G items s).
+  { eapply (inv3_run n G (full_guard G)); [exact W| |exact H].
+    intros s0 o C. unfold full_guard in C. apply andb_prop in C. tauto. }
+  apply I.
 Qed.
 
 Theorem route_linearisation n G items ops s :
@@ -412,8 +417,11 @@ Theorem route_linearisation n G items ops s :
   run n (full_guard G) (init n items) ops = Some s ->
   teq Dgate (flat_map igates items) (flat_map igates (done s ++ rem s)).
 Proof.
-  intros W H. eapply lin_gates; eauto. eapply inv2_run; [|exact H].
-  intros s0 o C. unfold full_guard in C. apply andb_prop in C. tauto.
+  intros W H. eapply lin_gates; [exact W|].
+  assert (I : inv2 items s).
+  { eapply (inv2_run n (full_guard G)); [|exact H].
+    intros s0 o C. unfold full_guard in C. apply andb_prop in C. tauto. }
+  apply I.
 Qed.
 
 (* at termination: un-routing the output gives a word trace-equivalent to the input *)
